@@ -36,7 +36,7 @@ func baseKnobs(name string) dbcheck.Knobs {
 // C10: acknowledged synced writes survive any crash.
 func TestVerifC10(t *testing.T) {
 	k := baseKnobs("C10")
-	k.Ingest, k.Excise, k.Reopen = true, true, true
+	k.Ingest, k.Excise, k.Reopen, k.FlushGate = true, true, true, true
 	runCrashDeck(t, "C10", "main", Options{Prop: "C10", Knobs: k, CloneEvery: 5, PostSyncEvery: 6, Depth: 1, AllowMixed: true}, 12, 300,
 		"Single-writer histories mixing Sync / NoSync / ApplyNoSyncWait+SyncWait commits, large batches, WAL rotation (small memtables), flushes, "+
 			"automatic and manual compactions, MANIFEST rotation, ingests, excises and close/reopen. Oracle (contains form): the recovered state must "+
@@ -56,7 +56,7 @@ func TestVerifC11(t *testing.T) {
 // batch followed by a non-overlapping ingest is not prefix-consistent).
 func TestVerifC11Ingest(t *testing.T) {
 	k := baseKnobs("C11i")
-	k.Ingest, k.Excise = true, true
+	k.Ingest, k.Excise, k.FlushGate = true, true, true
 	runCrashDeck(t, "C11", "ingest", Options{Prop: "C11", Knobs: k, CloneEvery: 6, Depth: 0, AllowMixed: false, Restarts: 1}, 8, 200,
 		"The C11 histories plus Ingest / IngestAndExcise / Excise. The literal prefix oracle is applied; a recovered state that is a batch prefix "+
 			"united with later acknowledged ingests/excises (only unsynced batches lost) is reported under the class non-prefix-recovery.")
